@@ -13,7 +13,7 @@ ASSUMPTIONS = ["reference vf/ref/ec.py + hashlib", "BSM signing is modelled as d
 NSHARDS = {"quick": 32, "thorough": 64}
 BUDGET_S = {"quick": 200, "thorough": 1800}
 MIN_HITS = {
-    'quick': {"sign": 128, "prefix_nonzero": 83, "len>=253": 80, "len>=65536": 32, "neg": 1968, "uncompressed": 56},
+    'quick': {"sign": 128, "prefix_nonzero": 85, "len>=253": 80, "len>=65536": 32, "neg": 2256, "uncompressed": 57},
     'thorough': {"sign": 15360, "prefix_nonzero": 10260, "len>=253": 5502, "len>=65536": 230, "neg": 245367, "uncompressed": 6178},
 }
 EDGE = [1, 2, 3, (ec.N - 1) // 2, (ec.N + 1) // 2, ec.N - 2, ec.N - 1]
@@ -22,6 +22,22 @@ MAGIC = b"Bitcoin Signed Message:\n"
 
 def selftest():
     ec.selftest()
+
+
+def frame(msg):
+    return wire.cs_enc(len(MAGIC)) + MAGIC + wire.cs_enc(len(msg)) + msg
+
+
+def unframe(b):
+    """inner message if b is exactly frame(inner), else None"""
+    pre = wire.cs_enc(len(MAGIC)) + MAGIC
+    if not b.startswith(pre):
+        return None
+    try:
+        n, off, _ = wire.cs_dec(b, len(pre))
+    except Exception:
+        return None
+    return b[off:] if len(b) - off == n else None
 
 
 def digest(msg):
@@ -35,7 +51,7 @@ def cases(ctx):
     for i in range(1500 if t else 8):
         x = r.choice(EDGE) if r.random() < 0.3 else r.randrange(1, ec.N)
         L = lens[i % len(lens)] if i < 2 * len(lens) and (t or i < 9) else r.choice([5, 20, 100, 300, r.randrange(0, 1000)])
-        yield {"k": "bsm", "x": "%064x" % x, "compressed": r.random() < 0.6, "msg": gen.rbytes(r, L).hex(), "prefix": r.choice([0, 0x6F, r.randrange(256)]), "other": "%064x" % r.randrange(1, ec.N), "nonce": ("%064x" % r.randrange(1, ec.N)) if r.random() < 0.25 else None, "seed": r.getrandbits(30)}
+        yield {"k": "bsm", "x": "%064x" % x, "compressed": r.random() < 0.6, "msg": gen.rbytes(r, L).hex(), "prefix": r.choice([0, 0x6F, r.randrange(256)]), "other": "%064x" % r.randrange(1, ec.N), "nonce": (("%064x" % x) if r.random() < 0.3 else ("%064x" % r.randrange(1, ec.N))) if r.random() < 0.3 else None, "seed": r.getrandbits(30), "framed": i % 4 == 3}
 
 
 def all_true(o):
@@ -53,6 +69,13 @@ def judge(ctx, case):
     x = int(case["x"], 16)
     comp = case["compressed"]
     m = bytes.fromhex(case["msg"])
+    if case.get("framed"):
+        # the message IS a complete, well-formed signed-message preimage of another message
+        m = frame(m)
+        case = dict(case, msg=m.hex())
+        ctx.hit("message_is_itself_framed")
+    if case["nonce"] and case["nonce"] == case["x"]:
+        ctx.hit("nonce_equals_key")
     p = case["prefix"]
     ctx.nontrivial()
     ctx.hit("sign")
@@ -112,6 +135,12 @@ def judge(ctx, case):
             ctx.viol("BSM verification succeeds for %s" % what, {"resp": str(w["ok"])[:300]})
 
     neg("a different message", (m + b"!").hex(), o["compact"], h160.hex())
+    # framing is not idempotent: the framed form of the message, and the message with one framing layer removed, are different messages
+    neg("the message wrapped in one more layer of magic/length framing", frame(m).hex(), o["compact"], h160.hex())
+    inner = unframe(m)
+    if inner is not None:
+        neg("the message with its own framing layer removed", inner.hex(), o["compact"], h160.hex())
+    neg("the message preceded by the magic prefix only", (wire.cs_enc(len(MAGIC)) + MAGIC + m).hex(), o["compact"], h160.hex())
     if m:
         neg("a truncated message", m[:-1].hex(), o["compact"], h160.hex())
     other = ec.ser(ec.mul_g(int(case["other"], 16)), comp)
